@@ -176,6 +176,9 @@ pub fn gen_plan(prop: &str, base_seed: u64, index: u64) -> Plan {
         "C13" | "C14" => crate::fam_pipe::generate(prop, &mut rng, &mut plan, index),
         _ => panic!("no generator for property {}", prop),
     }
+    // the parent's environment differs from run to run: whatever the library remembers of it
+    // from an earlier call (a process-wide snapshot, say) is stale in the next run of the worker
+    plan.parent.env.push(("SUBSIM_RUN".into(), format!("{:016x}", seed)));
     plan
 }
 
